@@ -29,6 +29,8 @@ _UTF8_POOL = ['a', 'Z', '0', ' ', '\n', 'é', 'ü', '€', '中', '文', '\U0001
 
 def expand(cspec):
     """cspec = {'seed','size','alpha'} -> bytes (deterministic)."""
+    if cspec.get('literal_hex') is not None:
+        return bytes.fromhex(cspec['literal_hex'])
     size = int(cspec.get('size', 0))
     alpha = cspec.get('alpha', 'bin')
     r = random.Random(cspec.get('seed', 0))
@@ -266,6 +268,9 @@ class Device(object):
     def new_session(self, first=False):
         if not first:
             self.sessions += 1
+            if getattr(self, 'rxbuf', None):
+                # the connection went away in the middle of a message (noted; whether that is acceptable depends on who closed it and why)
+                self.session_truncations = getattr(self, 'session_truncations', []) + [(self.sessions - 1, len(self.rxbuf))]
         self.rxbuf = bytearray()
         self.rx_hdr = None
         self.streams = {}        # remote id -> Stream (this session)
@@ -356,6 +361,8 @@ class Device(object):
 
     def _send_cnxn(self, now, lat=None):
         banner = self.spec.get('banner', 'device::ro.product.name=sim;ro.product.model=SimAdb;features=shell_v2,cmd').encode()
+        if self.spec.get('banner_hex'):
+            banner = bytes.fromhex(self.spec['banner_hex'])      # e.g. a model name in a legacy code page: not valid UTF-8
         self._conn_push(Pkt(W.A_CNXN, int(self.spec.get('version', W.A_VERSION)), self.maxdata, banner, kind='cnxn'), now, lat)
         self.sess['cnxn_sent'] = True
         self.sess['cnxn_maxdata'] = self.maxdata
@@ -416,6 +423,8 @@ class Device(object):
             self.c04.append('AUTH from host without a challenge')
             return
         keys = getattr(self, 'pubkeys', [])
+        if self.sess.get('auth_silent'):
+            return
         if arg0 == W.AUTH_SIGNATURE:
             last_arg0, last_tok = self.sess['challenges'][-1]
             # which fixture keys verify this signature over the most recent token?
@@ -424,6 +433,11 @@ class Device(object):
             for (_, t) in self.sess['challenges'][:-1]:
                 older += [i for i, pub in enumerate(keys) if self._verify(data, t, pub)]
             self.sess['sigs'].append({'valid_for': ok, 'valid_for_older_token': older, 'after_challenge': len(self.sess['challenges']) - 1, 'len': len(data)})
+            if a.get('silent_after_sig') is not None and a['silent_after_sig'] == len(self.sess['sigs']) - 1:
+                # the device stops answering after this signature (neither CNXN nor a new challenge)
+                self.sess['auth_silent'] = True
+                self.probe('auth_silent_after_signature')
+                return
             accept = a.get('accept_key')      # fixture index the device trusts, or None
             if accept is not None and accept in ok and last_arg0 == W.AUTH_TOKEN:
                 self._send_cnxn(now)
@@ -449,6 +463,12 @@ class Device(object):
     # -- streams -------------------------------------------------------------------------
     def _new_remote_id(self, local):
         used_local = set(self.by_local.keys()) | {local}
+        if self.spec.get('rid_style') == 'seq':
+            # adbd numbers its sockets from the start again after every (re)connection: the same remote ids come back
+            rid = 0x10000 + len([s for s in self.all_streams if s.session == self.sessions])
+            while rid in self.streams or rid in used_local:
+                rid += 1
+            return rid
         parts = [self.tape.draw('rid', 256) for _ in range(4)]
         rid = parts[0] | (parts[1] << 8) | (parts[2] << 16) | (parts[3] << 24)
         if self.spec.get('rid_style', 'wide') == 'high':
@@ -960,10 +980,13 @@ class SyncService(object):
             for p in produced:
                 s.outq.remove(p)
             s.last_ready = max([now] + [q.ready for q in s.outq])
-            for p in produced[:rbo]:
+            k = 0
+            while k < min(rbo, len(produced)) and produced[k].cmd == W.A_WRTE:
+                k += 1          # only WRITEs overtake the ack: a CLSE is the last thing the device says on a stream
+            for p in produced[:k]:
                 dev._q(s, p, now)
             dev._q(s, okay, now)
-            for p in produced[rbo:]:
+            for p in produced[k:]:
                 dev._q(s, p, now)
             dev.probe('reply_before_okay')
             if min(rbo, len(produced)) >= 2:
@@ -1135,7 +1158,11 @@ class SyncService(object):
             dev.probe('recv_fail_' + rf['at'])
             self.cur_hdrlen = 8
             self._reply(bytes(out), now, boundaries=bounds, kind='wrte')
-            # adbd keeps serving the sync connection after a failed RECV
+            # older adbd keeps serving the sync connection after a failed RECV; newer ones leave the service loop and close the stream
+            if rf.get('then_close'):
+                self.state = 'dead'
+                dev.q_close(self.s, now)
+                dev.probe('recv_fail_then_close')
             return
         if bad:
             out += struct.pack('<II', W.mkid(bad.encode()), 0)
@@ -1209,6 +1236,14 @@ class SyncService(object):
             self.cur['drained'] = True
             self.state = 'dead'
             dev.q_close(self.s, now)
+            return
+        pc = dev.spec.get('push_close')
+        if pc and pc.get('path') in (None, self.cur['path']):
+            # the sync service dies after it has taken DONE (storage gone, adbd restarting): no status record, just CLSE
+            self.cur['died'] = True
+            self.state = 'dead'
+            dev.q_close(self.s, now)
+            dev.probe('push_closed_without_status')
             return
         self.cur['mtime'] = mtime
         self.cur['t1'] = now
